@@ -10,6 +10,7 @@ NV(b) == [t |-> "num", b |-> b]
 NumD(b) == [t |-> "num", b |-> b]
 StrD(c) == [t |-> "str", c |-> c]
 Lit(v, rules) == [t |-> "lit", v |-> v, rules |-> rules]
+IdV(x) == [t |-> "id", s |-> x]
 Ref(names, rules) == [t |-> "ref", names |-> names, rules |-> rules]
 Arr(items, rules) == [t |-> "arr", items |-> items, rules |-> rules]
 Obj(props, rules) == [t |-> "obj", props |-> props, rules |-> rules]
@@ -30,6 +31,8 @@ Types == << [name |-> "@RecLast", n |-> RecLast], [name |-> "@RecFirst", n |-> R
             [name |-> "@TreeN", n |-> Obj(<<P(Kp, Ref(<<"@Branch", "@LeafN">>, <<>>))>>, <<>>)], [name |-> "@Branch", n |-> Obj(<<P(Kx, Ref(<<"@TreeN">>, <<>>))>>, <<>>)],
             [name |-> "@LeafN", n |-> Lit([t |-> "null"], <<>>)],
             [name |-> "@Dir", n |-> Obj(<<P(Kc, Arr(<<Obj(<<SC("@K", Ref(<<"@Dir">>, <<>>))>>, <<>>)>>, <<>>))>>, <<>>)],
+            \* a recursive array item that is followed by another item (items are matched by position)
+            [name |-> "@Kids", n |-> Obj(<<P(Kc, Arr(<<Ref(<<"@Kids">>, <<>>), One>>, <<>>))>>, <<>>)], [name |-> "@Pair", n |-> Arr(<<Ref(<<"@Pair">>, <<>>), Ref(<<"@I">>, <<>>)>>, <<>>)],
             [name |-> "@KQ", n |-> Lit(StrD(<<97, 34>>), <<>>)], [name |-> "@KB", n |-> Lit(StrD(<<34, 97, 92>>), <<>>)] >>     \* a"  and  "a\
 Env == [types |-> Types, enums |-> <<[name |-> "@E", items |-> <<NumD(N1), StrD(Sa)>>]>>]
 NamedE == R("enum", [t |-> "name", s |-> "@E"])
@@ -49,6 +52,9 @@ Roots == { Obj(<<P(KQuote, One)>>, <<>>), Obj(<<P(KCtl, One)>>, <<>>), Obj(<<P(K
            \* a named enum rule (the one rule value written as a bare @name), last / first / only rule of its object
            Obj(<<P(Ka, Lit(NumD(N1), <<OptR, NamedE>>)), P(Kb, Two)>>, <<>>), Obj(<<P(Ka, Lit(StrD(Sa), <<NamedE, OptR>>))>>, <<>>), Lit(NumD(N1), <<NamedE>>),
            Arr(<<Lit(StrD(Sa), <<NamedE>>)>>, <<>>),
+           Ref(<<"@Kids">>, <<>>), Ref(<<"@Pair">>, <<>>), Arr(<<Ref(<<"@Pair">>, <<>>), Ref(<<"@Kids">>, <<>>)>>, <<>>),
+           \* the rule type: "mixed" written out next to a type shortcut
+           Ref(<<"@I", "@K">>, <<R("type", IdV("mixed"))>>), Ref(<<"@I", "@K">>, <<>>), Obj(<<P(Ka, Ref(<<"@K", "@I">>, <<R("type", IdV("mixed")), OptR>>))>>, <<>>),
            Arr(<<>>, <<>>), Obj(<<>>, <<>>), Arr(<<Arr(<<>>, <<>>), Obj(<<>>, <<>>)>>, <<>>),
            Lit(StrD(<<97, 34, 92, 10, 233>>), <<>>), Lit(NumD(<<45, 48, 46, 53, 48>>), <<>>) }
 VARIABLE root
